@@ -33,7 +33,7 @@ import (
 
 func init() {
 	Register(&Check{ID: "C36", World: "B/cluster+agent", Gen: genShutdown, Run: runShutdown, Real: append(append([]string{}, bReal...), "agent.Agent (agent runs)"), Stub: bStub,
-		OwnProbes: []string{"traces_buffered_at_shutdown", "batches_pending_at_shutdown", "shutdown_multi_node", "agent_stopped", "span_in_queue_at_shutdown"}})
+		OwnProbes: []string{"traces_buffered_at_shutdown", "batches_pending_at_shutdown", "shutdown_multi_node", "agent_stopped", "span_in_queue_at_shutdown", "sender_backlog_at_stop", "flush_met_busy_honeycomb"}})
 }
 
 func genShutdown(r *Rng, tier string, p *Plan) {
@@ -79,6 +79,20 @@ func genShutdown(r *Rng, tier string, p *Plan) {
 	}
 	// shutdown somewhere inside (or right after) the traffic
 	p.N["stop_at_us"] = PickOf(r, r.I64n(now+1), now, now+1, now+PickOf(r, int64(10_000), 100_000, 1_000_000))
+	stop := p.N["stop_at_us"]
+	if r.Bool(0.3) {
+		// Honeycomb is busy around the shutdown: the final flush meets 429/503 + Retry-After
+		p.N["busy_from_us"] = max(0, stop-PickOf(r, int64(0), 0, 100_000, 1_000_000))
+		p.N["busy_n"] = int64(PickOf(r, 1, 2, 5))
+		p.N["busy_status"] = int64(PickOf(r, 429, 503))
+		p.N["busy_retry_s"] = int64(PickOf(r, 1, 2, 5))
+	}
+	if r.Bool(0.3) {
+		// the collector's sender goroutine is slow: decided traces queue up behind
+		// it and are still queued when Stop is called
+		p.N["park_sender_us"] = max(0, stop-PickOf(r, int64(0), 100_000, 1_000_000, 3_000_000, 6_000_000))
+		p.N["release_sender_after_us"] = PickOf(r, int64(100_000), 1_000_000, 3_000_000)
+	}
 	p.SortOps()
 }
 
@@ -122,6 +136,27 @@ func runShutdown(t *testing.T, p *Plan) *Outcome {
 			re := &routeEv{op: op, ev: ev, req: req, entry: int(op.I)}
 			evs = append(evs, re)
 			w.drv.AtSig(us(op.At), "request", fmt.Sprintf("op/%d", op.ID), fmt.Sprintf("%d/%d", op.I, op.J), func() { w.send(req) })
+		}
+		w.stopAt = stopAt
+		if p.On("busy_n") {
+			w.busyFrom, w.busyLeft, w.busyStatus, w.busyRetryAfter = us(p.N["busy_from_us"]), int(p.N["busy_n"]), int(p.N["busy_status"]), int(p.N["busy_retry_s"])
+		}
+		if _, ok := p.N["park_sender_us"]; ok {
+			w.drv.At(us(p.N["park_sender_us"]), "park", "park-sender", func() {
+				for _, n := range w.nodes {
+					n.tr.Park("sendTrace")
+				}
+				out.Fault("sender_stalled")
+			})
+			rel := stopAt + 2*us(p.N["batch_timeout_us"]) + us(p.N["release_sender_after_us"])
+			w.drv.At(rel, "release", "release-sender", func() {
+				for _, n := range w.nodes {
+					if n.tr.Parked("sendTrace") {
+						out.Probe("sender_backlog_at_stop")
+					}
+					n.tr.Release("sendTrace")
+				}
+			})
 		}
 		stopped := make(chan struct{})
 		w.drv.At(stopAt, "shutdown", "shutdown", func() {
